@@ -10,7 +10,6 @@ mod envelope;
 mod fairness;
 mod framing;
 mod idl;
-mod idlref;
 mod jsoneq;
 mod limits;
 mod outframe;
